@@ -63,6 +63,14 @@ def run(ctx):
     cases = []
     for _ in range(ctx.n(150, 2000)):
         sa, sb = rng.randbytes(32), rng.randbytes(32)
+        # several local keys talk to the SAME peer within one process, and one local key to several peers: each pair has its
+        # own shared secret
+        if cases and rng.random() < 0.35:
+            prev = rng.choice(cases)
+            if rng.random() < 0.5:
+                sb = bytes.fromhex(prev[1])
+            else:
+                sa = bytes.fromhex(prev[0])
         ida, idb = rng.randbytes(32), rng.randbytes(32)
         k = rng.random()
         if k < 0.2:
